@@ -79,3 +79,5 @@ def main():
     for t in ts: t.start()
     for t in ts: t.join()
 main()
+# the harness is rebuilt with -cover for every scratch copy: the build cache grows by gigabytes per matrix
+sh("go clean -cache")
